@@ -1,6 +1,579 @@
-//! C26 — not implemented yet.
-use mc_core::Ctx;
+//! C26 — roots and powers are correctly truncated.
+//!
+//! Bounded-exhaustive over (boundary lattice L(T) ∪ perfect-power / small-integer / near-one families) ×
+//! a degree alphabet (roots) and an exponent alphabet (powers), for Decimal and PreciseDecimal.
+//!
+//! Roots are *verified*, not recomputed: r is accepted iff |r|^n <= |x|·10^(s(n-1)) < (|r|+1)^n in BigInt
+//! arithmetic, with sign(r) = sign(x) (truncation toward zero); failure is accepted only for (negative,
+//! even degree) or degree 0.
+//! Powers: the exact rational x^e is formed as N/D in BigInt arithmetic; if it is representable (D | N and
+//! in range) the real result must equal it; otherwise None is accepted and Some(v) must satisfy
+//! |v|·D <= |N| with the sign of N (or v = 0). For |e| > 1024 the exact power is not formed; it is enclosed
+//! in a directed-rounding interval at 120 extra digits (only x = 0, ±1 are representable there).
+//! A panic is a violation everywhere.
+use crate::numref::*;
+use mc_core::{par_range, Ctx, Level, Local};
+use num_bigint::BigInt;
+use num_integer::Roots;
+use num_traits::{One, Signed, Zero};
+use radix_common::math::*;
+use serde_json::{json, Map, Value};
+use std::collections::BTreeSet;
 
-pub fn run(_ctx: Ctx) -> ! {
-    mc_core::machinery_error("C26: not implemented")
+const ROOT_DEGREES_QUICK: [u32; 13] = [0, 1, 2, 3, 4, 5, 7, 8, 16, 17, 36, 37, 64];
+const ROOT_DEGREES_MORE: [u32; 6] = [100, 127, 128, 255, 256, 1000];
+const BIG_DEGREES: [u32; 2] = [4096, 65537];
+const EXPS: [i64; 30] = [
+    i64::MIN,
+    i64::MIN + 1,
+    -128,
+    -127,
+    -65,
+    -36,
+    -18,
+    -4,
+    -3,
+    -2,
+    -1,
+    0,
+    1,
+    2,
+    3,
+    4,
+    5,
+    7,
+    8,
+    16,
+    18,
+    31,
+    36,
+    63,
+    64,
+    65,
+    127,
+    128,
+    i64::MAX - 1,
+    i64::MAX,
+];
+/// exponents with |e| above this are handled by interval enclosure instead of the exact rational
+const EXACT_LIMIT: u64 = 1024;
+
+fn pm(s: &mut BTreeSet<BigInt>, ty: &Ty, v: BigInt) {
+    let n = -&v;
+    if ty.fits(&v) {
+        s.insert(v);
+    }
+    if ty.fits(&n) {
+        s.insert(n);
+    }
+}
+
+/// Values on which roots are taken: L(T) plus perfect n-th powers (integer and fractional) and their raw
+/// neighbours, so that "one below a perfect power" (root must drop by a whole step) is always present.
+fn root_values<T: Fixed>(quick: bool) -> Lat<T> {
+    let ty = Ty::of::<T>();
+    let mut s: BTreeSet<BigInt> = lattice(&ty, quick, !quick).into_iter().collect();
+    for n in [2u32, 3, 4, 5, 7, 8, 16] {
+        for m in 2u32..=12 {
+            let p = num_traits::pow(BigInt::from(m), n as usize);
+            let whole = &p * &ty.one; // value m^n
+            let tenn = pow10(n);
+            for d in -1i32..=1 {
+                pm(&mut s, &ty, &whole + d);
+                if (&whole % &tenn).is_zero() {
+                    pm(&mut s, &ty, &whole / &tenn + d); // value (m/10)^n
+                }
+            }
+        }
+    }
+    Lat::from_values(ty, s.into_iter().collect())
+}
+
+/// Bases for powers: L(T) plus small integers, powers of two as values, exact negative powers of 2 and 5
+/// (the bases whose reciprocal powers are representable), near-one values, and the n-th roots of MAX.
+fn pow_values<T: Fixed>(quick: bool) -> Lat<T> {
+    let ty = Ty::of::<T>();
+    let one = ty.one.clone();
+    let mut s: BTreeSet<BigInt> = lattice(&ty, quick, !quick).into_iter().collect();
+    for m in (2u32..=12).chain([16, 20, 25, 32, 50, 64, 100, 125, 1000, 1024]) {
+        pm(&mut s, &ty, &one * m);
+    }
+    for j in 1u32..=40 {
+        pm(&mut s, &ty, &one * pow2(j));
+    }
+    for j in 1u32..=ty.scale {
+        pm(&mut s, &ty, &one / pow2(j)); // 2^-j exactly (10^s / 2^j is an integer for j <= s)
+        pm(&mut s, &ty, &one / num_traits::pow(BigInt::from(5), j as usize));
+        pm(&mut s, &ty, &one * 3 / pow2(j.min(8)));
+    }
+    for d in [1u32, 2, 3, 10] {
+        pm(&mut s, &ty, &one + d);
+        pm(&mut s, &ty, &one - d);
+    }
+    for k in [ty.scale / 2, ty.scale - 3, ty.scale - 1] {
+        pm(&mut s, &ty, &one + pow10(k));
+        pm(&mut s, &ty, &one - pow10(k));
+    }
+    // n-th roots of MAX (as values) and neighbours: x^n straddles the overflow boundary
+    for n in [2u32, 3, 4, 5, 7, 8, 16, 31, 63, 64, 127] {
+        let target = &ty.max * num_traits::pow(one.clone(), (n - 1) as usize);
+        let r = target.nth_root(n); // lattice construction only; the oracle never uses this
+        for d in -1i32..=1 {
+            pm(&mut s, &ty, &r + d);
+        }
+    }
+    Lat::from_values(ty, s.into_iter().collect())
+}
+
+// ------------------------------------------------------------------------------------------------
+// roots
+// ------------------------------------------------------------------------------------------------
+
+fn check_root<T: Fixed>(ty: &Ty, x: &BigInt, n: u32, via: &str, spow: &BigInt, got: Result<Option<BigInt>, String>, l: &mut Local) {
+    l.eval();
+    let case = || json!({"kind": "root", "type": T::NAME, "via": via, "a": x.to_string(), "degree": n});
+    let head = || format!("{}::{via}({}{}) [raw {x}]", T::NAME, render(x, ty.scale), if via == "checked_nth_root" { format!(", n={n}") } else { String::new() });
+    let must_fail = n == 0 || (x.is_negative() && n % 2 == 0);
+    let g = match &got {
+        Err(p) => {
+            l.class("root:panic");
+            report(l, "panic", format!("panic:{}:{via}", T::NAME), format!("{}: panicked: {p} @ {}", head(), mc_core::last_panic_location()), case());
+            return;
+        }
+        Ok(g) => g,
+    };
+    if must_fail {
+        l.class(if n == 0 { "root:zero-degree" } else { "root:even-of-negative" });
+        if let Some(r) = g {
+            report(l, "root-accepted-undefined", format!("root-accepted-undefined:{}:{via}", T::NAME), format!("{}: undefined root returned Some({r})", head()), case());
+        }
+        return;
+    }
+    let r = match g {
+        None => {
+            l.class("root:spurious-failure");
+            report(l, "root-spurious-failure", format!("root-spurious-failure:{}:{via}", T::NAME), format!("{}: the root is defined but the real code returned None", head()), case());
+            return;
+        }
+        Some(r) => r,
+    };
+    // verification: |r|^n <= |x| * S^(n-1) < (|r|+1)^n, sign(r) = sign(x)
+    let target = x.abs() * spow;
+    let ra = r.abs();
+    let lo = num_traits::pow(ra.clone(), n as usize);
+    let hi = num_traits::pow(&ra + 1, n as usize);
+    let sign_ok = r.is_zero() || (r.is_negative() == x.is_negative());
+    let exact = lo == target;
+    if !(lo <= target && target < hi) || !sign_ok || (x.is_zero() != r.is_zero()) {
+        l.class("root:wrong");
+        let why = if !sign_ok {
+            "wrong sign"
+        } else if lo > target {
+            "magnitude too large (not truncated toward zero)"
+        } else {
+            "magnitude too small"
+        };
+        report(l, "root-not-truncated", format!("root-not-truncated:{}:{via}", T::NAME), format!("{}: returned {r}: {why}; need |r|^n <= |x|*10^(s(n-1)) < (|r|+1)^n", head()), case());
+        return;
+    }
+    l.class(if n == 1 {
+        "root:degree-one"
+    } else if x.is_zero() {
+        "root:of-zero"
+    } else if exact {
+        "root:exact"
+    } else if x.is_negative() {
+        "root:truncated-negative"
+    } else {
+        "root:truncated-positive"
+    });
+}
+
+fn sweep_roots<T: Fixed>(ctx: &Ctx, vals: &Lat<T>, degrees: &[u32]) {
+    let ty = &vals.ty;
+    // S^(n-1) per degree, once
+    let spows: Vec<BigInt> = degrees.iter().map(|&n| if n == 0 { BigInt::one() } else { num_traits::pow(ty.one.clone(), (n - 1) as usize) }).collect();
+    let s1 = ty.one.clone();
+    let s2 = &ty.one * &ty.one;
+    par_range(ctx, vals.len() as u64, 2, |i, l| {
+        let i = i as usize;
+        let (x, xv) = (&vals.big[i], vals.val[i]);
+        check_root::<T>(ty, x, 2, "checked_sqrt", &s1, got_big(mc_core::catch(|| xv.c_sqrt())), l);
+        check_root::<T>(ty, x, 3, "checked_cbrt", &s2, got_big(mc_core::catch(|| xv.c_cbrt())), l);
+        for (k, &n) in degrees.iter().enumerate() {
+            check_root::<T>(ty, x, n, "checked_nth_root", &spows[k], got_big(mc_core::catch(|| xv.c_nth_root(n))), l);
+        }
+        if i % 173 == 11 {
+            l.sample(|| json!({"type": T::NAME, "value": render(x, ty.scale), "cbrt_raw": show(&mc_core::catch(|| xv.c_cbrt()))}));
+        }
+    });
+}
+
+/// Very large degrees on a handful of values (cost grows with the degree: the code forms 10^(s(n-1))).
+fn big_degree_roots<T: Fixed>(ctx: &Ctx, degrees: &[u32]) {
+    let ty = Ty::of::<T>();
+    let vals: Vec<BigInt> = vec![BigInt::one(), -BigInt::one(), ty.one.clone(), -&ty.one, &ty.one * 2, &ty.one / 2, ty.max.clone(), &ty.min + 1, &ty.one + 1, &ty.one - 1];
+    let lat = Lat::<T>::from_values(ty.clone(), vals);
+    let items: Vec<(usize, u32)> = (0..lat.len()).flat_map(|i| degrees.iter().map(move |&n| (i, n))).collect();
+    mc_core::par_for(ctx, &items, |&(i, n), l| {
+        let spow = num_traits::pow(lat.ty.one.clone(), (n - 1) as usize);
+        let xv = lat.val[i];
+        check_root::<T>(&lat.ty, &lat.big[i], n, "checked_nth_root", &spow, got_big(mc_core::catch(|| xv.c_nth_root(n))), l);
+    });
+}
+
+/// Degrees near u32::MAX: only the inputs on which the code answers without forming 10^(s·(n-1)).
+fn extreme_degree_roots<T: Fixed>(l: &mut Local) {
+    let ty = Ty::of::<T>();
+    let zero: T = from_big(&BigInt::zero()).unwrap();
+    let neg: T = from_big(&-&ty.one).unwrap();
+    for n in [u32::MAX, u32::MAX - 1] {
+        check_root::<T>(&ty, &BigInt::zero(), n, "checked_nth_root", &BigInt::one(), got_big(mc_core::catch(|| zero.c_nth_root(n))), l);
+    }
+    check_root::<T>(&ty, &-&ty.one, u32::MAX - 1, "checked_nth_root", &BigInt::one(), got_big(mc_core::catch(|| neg.c_nth_root(u32::MAX - 1))), l);
+}
+
+// ------------------------------------------------------------------------------------------------
+// powers
+// ------------------------------------------------------------------------------------------------
+
+fn exp_class(e: i64) -> &'static str {
+    if e == i64::MIN {
+        "exp=i64::MIN"
+    } else if e < 0 {
+        "exp<0"
+    } else if e == 0 {
+        "exp=0"
+    } else {
+        "exp>0"
+    }
+}
+
+struct Iv {
+    lo: BigInt,
+    hi: BigInt,
+    hi_unbounded: bool,
+}
+
+fn iv_mul(x: &Iv, y: &Iv, p: &BigInt, cap: &BigInt) -> Iv {
+    let mut lo: BigInt = (&x.lo * &y.lo) / p; // floor of a non-negative product
+    let mut unb = x.hi_unbounded || y.hi_unbounded;
+    let mut hi: BigInt = if unb { cap.clone() } else { (&x.hi * &y.hi + p - BigInt::one()) / p }; // ceil
+    if lo > *cap {
+        lo = cap.clone();
+    }
+    if hi > *cap {
+        hi = cap.clone();
+        unb = true;
+    }
+    Iv { lo, hi, hi_unbounded: unb }
+}
+
+/// Enclosure of |x|^n (x = |a|/S, or S/|a| when `recip`) scaled by P = 10^w; a != 0.
+fn pow_interval(a_abs: &BigInt, s: &BigInt, recip: bool, n: u64, p: &BigInt, cap: &BigInt) -> Iv {
+    let mut base = if recip {
+        let num = s * p;
+        let lo = &num / a_abs;
+        let exact = (&lo * a_abs) == num;
+        let hi = if exact { lo.clone() } else { &lo + 1 };
+        Iv { lo, hi, hi_unbounded: false }
+    } else {
+        let v = a_abs * (p / s); // exact: P is a multiple of S
+        Iv { lo: v.clone(), hi: v, hi_unbounded: false }
+    };
+    let mut acc = Iv { lo: p.clone(), hi: p.clone(), hi_unbounded: false };
+    let mut n = n;
+    while n > 0 {
+        if n & 1 == 1 {
+            acc = iv_mul(&acc, &base, p, cap);
+        }
+        n >>= 1;
+        if n > 0 {
+            base = iv_mul(&base, &base, p, cap);
+        }
+    }
+    acc
+}
+
+struct PowCtx {
+    ty: Ty,
+    /// per exponent index: S^(n-1) for e > 0, S^(n+1) for e < 0 (|e| <= EXACT_LIMIT), else 1
+    spow: Vec<BigInt>,
+    p: BigInt,
+    p_over_s: BigInt,
+    cap: BigInt,
+}
+
+fn check_pow<T: Fixed>(pc: &PowCtx, a: &BigInt, av: T, ei: usize, l: &mut Local) {
+    l.eval();
+    let ty = &pc.ty;
+    let e = EXPS[ei];
+    let n = e.unsigned_abs();
+    let got = got_big(mc_core::catch(|| av.c_powi(e)));
+    let case = || json!({"kind": "pow", "type": T::NAME, "a": a.to_string(), "exp": e});
+    let head = || format!("{}::checked_powi({}, {e}) [raw {a}]", T::NAME, render(a, ty.scale));
+    let g = match &got {
+        Err(p) => {
+            l.class("powi:panic");
+            report(l, "panic", format!("panic:{}:{}:checked_powi", exp_class(e), T::NAME), format!("{}: panicked: {p} @ {}", head(), mc_core::last_panic_location()), case());
+            return;
+        }
+        Ok(g) => g,
+    };
+    // --- cases without a mathematical demand
+    if a.is_zero() && e == 0 {
+        l.class("powi:zero-pow-zero(no demand)");
+        return;
+    }
+    if a.is_zero() && e < 0 {
+        l.class("powi:zero-to-negative(undefined)");
+        if g.is_some() {
+            l.info("0^negative returned Some (undefined; statement silent)");
+        }
+        return;
+    }
+    let neg_result = a.is_negative() && n % 2 == 1;
+    let missed = |l: &mut Local, exact: &BigInt| {
+        report(
+            l,
+            "powi-exact-result-missed",
+            format!("powi-exact-result-missed:{}:{}", exp_class(e), T::NAME),
+            format!("{}: the exact result {exact} (raw) is representable but the real code returned {}", head(), show_got(&got)),
+            case(),
+        );
+    };
+    // --- the exact result, when it is representable
+    let exact_repr: Option<BigInt>;
+    // bound check data for the non-representable case: Some(v) must satisfy |v|*D <= |N|
+    let mut frac: Option<(BigInt, BigInt)> = None;
+    let mut overflow = false;
+    if n <= EXACT_LIMIT {
+        let (num, den): (BigInt, BigInt) = if e == 0 {
+            (ty.one.clone(), BigInt::one())
+        } else if e > 0 {
+            (num_traits::pow(a.clone(), n as usize), pc.spow[ei].clone())
+        } else {
+            let d = num_traits::pow(a.abs(), n as usize);
+            (if neg_result { -pc.spow[ei].clone() } else { pc.spow[ei].clone() }, d)
+        };
+        let (q, ex) = div_trunc(&num, &den);
+        overflow = !ty.fits(&q);
+        exact_repr = if ex && !overflow { Some(q) } else { None };
+        frac = Some((num, den));
+    } else {
+        // |e| > 1024: representable only for x in {0 (e > 0), 1, -1}
+        exact_repr = if a.is_zero() {
+            Some(BigInt::zero())
+        } else if a.abs() == ty.one {
+            Some(if neg_result { -ty.one.clone() } else { ty.one.clone() })
+        } else {
+            None
+        };
+    }
+    if let Some(x) = &exact_repr {
+        l.class("powi:exact-representable");
+        match g {
+            Some(v) if v == x => {}
+            Some(_) => report(
+                l,
+                "powi-wrong-exact-value",
+                format!("powi-wrong-exact-value:{}:{}", exp_class(e), T::NAME),
+                format!("{}: exact result {x} (raw) is representable, real code returned {}", head(), show_got(&got)),
+                case(),
+            ),
+            None => missed(l, x),
+        }
+        return;
+    }
+    // --- not representable: None is fine, Some(v) must not exceed the exact result in magnitude
+    let v = match g {
+        None => {
+            l.class(if overflow { "powi:overflow->none" } else if n > EXACT_LIMIT { "powi:huge-exp-unrepresentable->none" } else { "powi:inexact->none" });
+            return;
+        }
+        Some(v) => v,
+    };
+    if !v.is_zero() && v.is_negative() != neg_result {
+        l.class("powi:wrong-sign");
+        report(l, "powi-wrong-sign", format!("powi-wrong-sign:{}:{}", exp_class(e), T::NAME), format!("{}: returned {v} with the wrong sign", head()), case());
+        return;
+    }
+    if let Some((num, den)) = &frac {
+        if v.abs() * den <= num.abs() {
+            l.class(if overflow { "powi:overflow->some-below-exact" } else { "powi:inexact->some-below-exact" });
+        } else {
+            l.class("powi:exceeds-exact");
+            report(
+                l,
+                "powi-exceeds-exact",
+                format!("powi-exceeds-exact:{}:{}", exp_class(e), T::NAME),
+                format!("{}: returned {v} (raw), larger in magnitude than the exact result {}/{}", head(), mc_core::truncate(&num.to_string(), 90), mc_core::truncate(&den.to_string(), 90)),
+                case(),
+            );
+        }
+        return;
+    }
+    // huge exponent: interval enclosure
+    let iv = pow_interval(&a.abs(), &ty.one, e < 0, n, &pc.p, &pc.cap);
+    let scaled = v.abs() * &pc.p_over_s;
+    if scaled <= iv.lo {
+        l.class("powi:huge-exp->some-below-exact");
+    } else if !iv.hi_unbounded && scaled > iv.hi {
+        l.class("powi:exceeds-exact");
+        report(l, "powi-exceeds-exact", format!("powi-exceeds-exact:{}:{}", exp_class(e), T::NAME), format!("{}: returned {v} (raw), above the upper enclosure of the exact result", head()), case());
+    } else {
+        l.class("powi:huge-exp->inconclusive");
+        l.info("huge exponent: result inside the enclosure width, not decidable (no demand made)");
+    }
+}
+
+fn sweep_pows<T: Fixed>(ctx: &Ctx, vals: &Lat<T>) {
+    let ty = vals.ty.clone();
+    let spow: Vec<BigInt> = EXPS
+        .iter()
+        .map(|&e| {
+            let n = e.unsigned_abs();
+            if n > EXACT_LIMIT || e == 0 {
+                BigInt::one()
+            } else if e > 0 {
+                num_traits::pow(ty.one.clone(), (n - 1) as usize)
+            } else {
+                num_traits::pow(ty.one.clone(), (n + 1) as usize)
+            }
+        })
+        .collect();
+    let w = ty.scale + 120;
+    let pc = PowCtx { p: pow10(w), p_over_s: pow10(w - ty.scale), cap: pow10(w + 80), spow, ty };
+    par_range(ctx, vals.len() as u64, 2, |i, l| {
+        let i = i as usize;
+        for ei in 0..EXPS.len() {
+            check_pow::<T>(&pc, &vals.big[i], vals.val[i], ei, l);
+        }
+        if i % 197 == 5 {
+            let xv = vals.val[i];
+            l.sample(|| json!({"type": T::NAME, "base": render(&vals.big[i], pc.ty.scale), "powi_3_raw": show(&mc_core::catch(|| xv.c_powi(3))), "powi_-2_raw": show(&mc_core::catch(|| xv.c_powi(-2)))}));
+        }
+    });
+}
+
+// ------------------------------------------------------------------------------------------------
+
+fn replay(ctx: Ctx, case: Value) -> ! {
+    let kind = case.get("kind").and_then(|k| k.as_str()).unwrap_or("");
+    let is_dec = case.get("type").and_then(|k| k.as_str()) == Some("Decimal");
+    let a = parse_big(&case, "a");
+    let mut l = Local::new();
+    fn root<T: Fixed>(a: &BigInt, n: u32, via: &str, l: &mut Local) {
+        let ty = Ty::of::<T>();
+        let xv: T = from_big(a).unwrap_or_else(|| mc_core::machinery_error("replay: value out of range"));
+        let got = got_big(mc_core::catch(|| match via {
+            "checked_sqrt" => xv.c_sqrt(),
+            "checked_cbrt" => xv.c_cbrt(),
+            _ => xv.c_nth_root(n),
+        }));
+        println!("REPLAY {}::{via}({}, n={n}): real code returned {}", T::NAME, render(a, ty.scale), show_got(&got));
+        let spow = if n == 0 { BigInt::one() } else { num_traits::pow(ty.one.clone(), (n - 1) as usize) };
+        check_root::<T>(&ty, a, n, via, &spow, got, l);
+    }
+    fn pow<T: Fixed>(a: &BigInt, e: i64, l: &mut Local) {
+        let ty = Ty::of::<T>();
+        let xv: T = from_big(a).unwrap_or_else(|| mc_core::machinery_error("replay: value out of range"));
+        let ei = EXPS.iter().position(|x| *x == e).unwrap_or_else(|| mc_core::machinery_error("replay: exponent not in the alphabet"));
+        println!("REPLAY {}::checked_powi({}, {e}): real code returned {}", T::NAME, render(a, ty.scale), show(&mc_core::catch(|| xv.c_powi(e))));
+        let lat = Lat::<T>::from_values(ty, vec![a.clone()]);
+        // same code path as the sweep, restricted to one exponent
+        let n = e.unsigned_abs();
+        let spow: Vec<BigInt> = EXPS
+            .iter()
+            .map(|&x| {
+                if x != e || n > EXACT_LIMIT || e == 0 {
+                    BigInt::one()
+                } else if e > 0 {
+                    num_traits::pow(lat.ty.one.clone(), (n - 1) as usize)
+                } else {
+                    num_traits::pow(lat.ty.one.clone(), (n + 1) as usize)
+                }
+            })
+            .collect();
+        let w = lat.ty.scale + 120;
+        let pc = PowCtx { p: pow10(w), p_over_s: pow10(w - lat.ty.scale), cap: pow10(w + 80), spow, ty: lat.ty.clone() };
+        check_pow::<T>(&pc, a, lat.val[0], ei, l);
+    }
+    match kind {
+        "root" => {
+            let n = case.get("degree").and_then(|k| k.as_u64()).unwrap_or(2) as u32;
+            let via = case.get("via").and_then(|k| k.as_str()).unwrap_or("checked_nth_root").to_string();
+            if is_dec {
+                root::<Decimal>(&a, n, &via, &mut l)
+            } else {
+                root::<PreciseDecimal>(&a, n, &via, &mut l)
+            }
+        }
+        "pow" => {
+            let e = case.get("exp").and_then(|k| k.as_i64()).unwrap_or(0);
+            if is_dec {
+                pow::<Decimal>(&a, e, &mut l)
+            } else {
+                pow::<PreciseDecimal>(&a, e, &mut l)
+            }
+        }
+        _ => mc_core::machinery_error("replay: unknown case kind"),
+    }
+    println!("REPLAY verdict: {}", if l.violations.is_empty() { "agrees with the specification" } else { "VIOLATES the specification" });
+    ctx.merge(l);
+    ctx.finish(Level::Exploration, "replay", 0, false, Map::new(), &[])
+}
+
+pub fn run(ctx: Ctx) -> ! {
+    if let Some(case) = ctx.read_replay_case() {
+        replay(ctx, case);
+    }
+    let quick = ctx.quick();
+    let mut degrees: Vec<u32> = ROOT_DEGREES_QUICK.to_vec();
+    if !quick {
+        degrees.extend(ROOT_DEGREES_MORE);
+    }
+    let rd = root_values::<Decimal>(quick);
+    let rp = root_values::<PreciseDecimal>(quick);
+    sweep_roots(&ctx, &rd, &degrees);
+    sweep_roots(&ctx, &rp, &degrees);
+    let t_roots = ctx.elapsed_s();
+    let mut l = Local::new();
+    extreme_degree_roots::<Decimal>(&mut l);
+    extreme_degree_roots::<PreciseDecimal>(&mut l);
+    ctx.merge(l);
+    if !quick {
+        big_degree_roots::<Decimal>(&ctx, &BIG_DEGREES);
+        big_degree_roots::<PreciseDecimal>(&ctx, &BIG_DEGREES);
+    }
+    let t_big = ctx.elapsed_s();
+    let pd = pow_values::<Decimal>(quick);
+    let pp = pow_values::<PreciseDecimal>(quick);
+    sweep_pows(&ctx, &pd);
+    sweep_pows(&ctx, &pp);
+
+    let classes = ctx.classes();
+    let trivial = ["root:degree-one", "root:of-zero", "powi:zero-pow-zero(no demand)", "powi:zero-to-negative(undefined)"];
+    let nontrivial: u64 = classes.iter().filter(|(k, _)| !trivial.contains(&k.as_str())).map(|(_, v)| *v).sum();
+    let mut cov = Map::new();
+    cov.insert("root_values".into(), json!({"Decimal": rd.len(), "PreciseDecimal": rp.len()}));
+    cov.insert("root_degrees".into(), json!(degrees));
+    cov.insert("big_root_degrees_on_10_values".into(), json!(if quick { vec![] } else { BIG_DEGREES.to_vec() }));
+    cov.insert("pow_bases".into(), json!({"Decimal": pd.len(), "PreciseDecimal": pp.len()}));
+    cov.insert("pow_exponents".into(), json!(EXPS.to_vec()));
+    cov.insert("seconds_roots".into(), json!(t_roots));
+    cov.insert("seconds_big_degree_roots".into(), json!(t_big - t_roots));
+    ctx.finish(
+        Level::Exploration,
+        "a case = one (type, operation, value, degree or exponent) evaluated on the real code and verified in BigInt arithmetic; roots: (L(T) ∪ perfect powers ±1 raw) × {sqrt, cbrt, nth_root × degree alphabet}; powers: (L(T) ∪ small integers, 2^j, 2^-j, 5^-j, near-one, n-th roots of MAX ±1) × exponent alphabet; non-trivial = every case except degree 1, root of zero, 0^0 and 0^negative",
+        nontrivial,
+        true,
+        cov,
+        &[
+            "nth_root with a degree near u32::MAX is only run on inputs answered without forming 10^(s(n-1)) (zero; negative value with even degree): on any other input the code materialises a number of ~60·n bits (n = u32::MAX: ~32 GB), which would take the harness down; reported as an observation, not decided here",
+            "for |exponent| > 1024 the exact power is enclosed by directed rounding at 120 extra digits; a result inside the enclosure width is counted as inconclusive (informational), never as a violation",
+            "0^0 and 0^negative carry no demand (statement silent), except that they must not panic",
+            "raw values are transported as u64 limbs via from_digits/to_digits",
+        ],
+    )
 }
